@@ -32,6 +32,8 @@ Local Notation jones_vec := (@M_C17.jones_vec ROps).
 Local Notation field3d := (@M_C17.field3d ROps).
 Local Notation polstate_init := (@M_C17.polstate_init ROps).
 Local Notation xhat := (@M_C17.xhat ROps).
+Local Notation trace_PP := (@M_C17.trace_PP ROps).
+Local Notation chain_calls := (@M_C17.chain_calls ROps).
 
 Theorem C17_fresnel_transmit_kernel :
   forall n1 n2 th : R,
@@ -271,3 +273,8 @@ Theorem C17_unpolarized_is_mean :
 Proof. exact unpolarized_is_mean. Qed.
 Print Assumptions C17_unpolarized_is_mean.
 
+Theorem C17_trace_PP_chain :
+  forall (surfs : list (V3 ROps * option Mat)) (k : V3 ROps) (P : Mat),
+    trace_PP (chain_calls k surfs) P = trace_P k surfs P.
+Proof. exact trace_PP_chain. Qed.
+Print Assumptions C17_trace_PP_chain.
